@@ -156,6 +156,27 @@ for pid, text, ref in [
 ]:
     CLAIMED[pid] = dict(category="model_checking", text=text, design_ref=ref, note=WRITER_NOTE, technique=WRITER_TECH)
 
+CLAIMED["C17"] = dict(
+    category="model_checking",
+    text="Decoding: JsonReader.tla's \\u machine and UTF-8 encoder (whose shape is checked for every BMP code unit and the "
+         "plane boundaries by ASSUME) is the oracle for every \\uXXXX unit in both hex cases, as value and key, at start / "
+         "middle / end, and for surrogate pairs (quick: all highs x 64 lows, thorough: all 1M), replayed through every input "
+         "kind; unpaired surrogates included. Escaping: every byte and byte pair (quick: every byte with 18 edge bytes in "
+         "both orders; thorough: all 65536) as content and as key is serialized and read back; EscapeTrace.tla requires the "
+         "text to unescape (by the reader spec) to the bytes, non-special bytes verbatim, identity round trip.",
+    design_ref="DESIGN.md §4 C17", note=READER_NOTE, technique=READER_TECH + "; trace validation of escaping rows")
+CLAIMED["C18"] = dict(
+    category="model_checking",
+    text="Compare.tla defines Cmp over a table of value descriptors (exact rank / double rank for numbers, bytes, children) "
+         "and TLC checks its coherence on the table; the library's six operators are recorded for every ordered pair of 76 "
+         "values (every storage kind, linked/copied strings, raw, nested and permuted containers, null, unbound) as "
+         "variant*variant across and inside documents and variant*C++ operand in both orders; CompareTrace.tla checks the "
+         "laws per row and agreement of == (all pairs) and < > (numbers) with Cmp.",
+    design_ref="DESIGN.md §4 C18",
+    note="The value table is fixed (boundary landmarks); numeric ranks come from exact rational arithmetic in the "
+         "generator. Don't-care: NaN, bool*number, order of non-numeric values.",
+    technique="TLA+ comparison spec over a landmark table; trace validation of recorded operator outcomes")
+
 NOT_YET = {
 }
 
